@@ -117,6 +117,13 @@ class PartWP(IdEnvWP):
         self.n += 1
         return f'{hint}!{self.n}'
 
+    ret_node = None
+
+    def ex(self, n):
+        if n.get('kind') == 'ReturnStmt':
+            self.ret_node = n
+        return super().ex(n)
+
     def ev(self, n):
         if n.get('kind') == 'MaterializeTemporaryExpr' or n.get('kind') == 'CXXBindTemporaryExpr':
             return self.ev(n['inner'][0])
@@ -141,9 +148,13 @@ def walk(tag, fn):
 
     def post(wp, rv):
         if rv is None or rv.s != 'View':
-            return [(f'{kind}_view: the accessor returns a view of the parameter vector', 'false')]
+            wp.oblige(f'{kind}_view: the accessor returns a view of the parameter vector', 'false', wp.ret_node)
+            return []
         out = [(f'{kind}_buffer: the view is a view of the parameter vector handed in', 'true' if rv.c['buf'] == 'x' else 'false')]
-        return out + clauses(kind, rv.c['off'], rv.c['dims'])
+        # raised directly (not returned): the label then STARTS with the clause identifier, which is what mutations.json `expect` is matched against
+        for label, claim in out + clauses(kind, rv.c['off'], rv.c['dims']):
+            wp.oblige(label, claim, wp.ret_node)
+        return []
     wp.post = post
     wp.ret_sort = None
     wp.run(fn, HDR)
